@@ -557,6 +557,12 @@ func ifOf(b *ssa.BasicBlock) *ssa.If {
 		return nil
 	}
 	i, _ := b.Instrs[len(b.Instrs)-1].(*ssa.If)
+	if i == nil {
+		// a synthetic test in front of a return (rules.go, guard): edge predicates see it through condOf
+		if c, ok := condOverride[b]; ok {
+			return &ssa.If{Cond: c}
+		}
+	}
 	return i
 }
 
@@ -1120,6 +1126,24 @@ func phiLeaves(v ssa.Value) []ssa.Value {
 				}
 				depth--
 				return
+			}
+		}
+		// one result of a multi-result helper extracted since
+		if ex, ok := v.(*ssa.Extract); ok && depth < 2 {
+			if call, ok := ex.Tuple.(*ssa.Call); ok {
+				if g := call.Call.StaticCallee(); inlinable(g) && len(g.Params) == len(call.Call.Args) {
+					for i, p := range g.Params {
+						bound[p] = call.Call.Args[i]
+					}
+					depth++
+					for _, ret := range returnsOf(g) {
+						if ex.Index < len(ret.Results) {
+							walk(ret.Results[ex.Index])
+						}
+					}
+					depth--
+					return
+				}
 			}
 		}
 		if p, ok := v.(*ssa.Parameter); ok {
